@@ -46,11 +46,16 @@ class Leaves:
             out |= self._value_node(fn, n, depth, stack)
         return out
 
-    def _closure_path(self, terms):
+    def _closure_path(self, terms, fn=None):
         ps = set()
         for n in terms:
             if n[0] == 'closure':
                 ps.add(n[1])
+                if fn is not None and len(n) > 2:
+                    # what the closure captured, as terms of the function that built it
+                    if not hasattr(self, '_captures'):
+                        self._captures = {}
+                    self._captures[n[1]] = (fn, n[2])
             else:
                 return None
         return ps
@@ -72,11 +77,11 @@ class Leaves:
         if k == 'call':
             path, args = n[1], n[2]
             if path in PASS_CLOSURE:
-                cps = self._closure_path(args[PASS_CLOSURE[path]])
+                cps = self._closure_path(args[PASS_CLOSURE[path]], fn)
                 if cps:
                     return self._ret_of(cps, 'value', depth, stack)
             if path in FN_CALL:
-                cps = self._closure_path(args[0])
+                cps = self._closure_path(args[0], fn)
                 if cps:
                     return self._ret_of(cps, 'value', depth, stack)
             for pre in OPT_RES:
@@ -107,12 +112,17 @@ class Leaves:
                         return r | {('opaque', m + ' closure')}
             b = self.body_of(path)
             if b is not None:
-                return self._ret_of({path}, 'value', depth, stack, subst=self._subst(fn, n, b), args=n[2])
+                return self._ret_of({path}, 'value', depth, stack, subst=self._subst(fn, n, b), args=n[2], caller=fn)
             return {('extract', path, self._garg(fn, n), self.recv_root(n[2][0] if n[2] else frozenset()))}
         if k in ('binop', 'unop', 'cast'):
             return {('opaque', fmt_node(n)[:80])}
         if k == 'agg':
             return {('opaque', 'agg ' + n[1])}
+        if k == 'field' and str(n[2]).isdigit() and n[1] and all(m[0] == 'param' and m[1] == 1 for m in n[1]):
+            cap = getattr(self, '_captures', {}).get(fn.path)
+            if cap is not None and int(n[2]) < len(cap[1]):
+                outer, caps = cap
+                return self.value(outer, caps[int(n[2])], depth + 1, stack)
         return {('opaque', fmt_node(n)[:80])}
 
     def _rebind(self, leaves, recv_terms):
@@ -159,7 +169,7 @@ class Leaves:
             return None
         return {g: a for g, a in zip(gens, gargs) if not g.startswith("'")}
 
-    def _ret_of(self, paths, mode, depth, stack, subst=None, args=None):
+    def _ret_of(self, paths, mode, depth, stack, subst=None, args=None, caller=None):
         out = set()
         for p in paths:
             if p in stack:
@@ -175,6 +185,20 @@ class Leaves:
                 res = self.payload(f, rt, depth + 1, stack + (p,))
             if subst:
                 res = {(l[0], l[1], subst.get(l[2], l[2])) + tuple(l[3:]) if l[0] == 'extract' and len(l) > 2 else l for l in res}
+            if args is not None and caller is not None:
+                # a leaf that is a parameter of the helper (`fallback`) is what this call site passes for it
+                res1 = set()
+                for l in res:
+                    if l[0] == 'param' and len(l) == 2:
+                        idx = None
+                        for i in range(1, f.b.arg_count + 1):
+                            if f.b.local_name(i) == l[1] or str(i) == l[1]:
+                                idx = i
+                        if idx is not None and idx - 1 < len(args):
+                            res1 |= self.value(caller, args[idx - 1], depth + 1, stack)
+                            continue
+                    res1.add(l)
+                res = res1
             if args is not None:
                 res2 = set()
                 for l in res:
@@ -316,6 +340,21 @@ class Leaves:
                         pos = 2 if n[1].startswith('pyo3::Py::<T>::') else 1
                         if pos < len(n[2]) and len(n[2][pos]) == 1 and next(iter(n[2][pos]))[0] == 'param':
                             mname = ('param', next(iter(n[2][pos]))[1])   # a parameter of this helper: resolved at its call sites
+                        elif pos < len(n[2]) and len(n[2][pos]) == 1 and next(iter(n[2][pos]))[0] == 'field':
+                            # a variable captured by the closure this call sits in (`with_gil(|py| obj.call_method1(py, method, ..))`):
+                            # what it was where the closure was built - a parameter of the helper, or a literal
+                            fnode = next(iter(n[2][pos]))
+                            site_fn = n[3][0] if len(n) > 3 and isinstance(n[3], tuple) else None
+                            cap = getattr(self, '_captures', {}).get(site_fn)
+                            if cap is not None and str(fnode[2]).isdigit() and fnode[1] and all(m[0] == 'param' and m[1] == 1 for m in fnode[1]) \
+                                    and int(fnode[2]) < len(cap[1]):
+                                cv = cap[1][int(fnode[2])]
+                                if len(cv) == 1:
+                                    c0 = next(iter(cv))
+                                    if c0[0] == 'param':
+                                        mname = ('param', c0[1])
+                                    elif c0[0] == 'const' and '"' in c0[1]:
+                                        mname = c0[1].split('"')[1]
                     out.add(('call', n[1], mname))
             elif k == 'field':
                 out.add(('field', n[2]))
